@@ -37,6 +37,12 @@ def run_shard(desc, acc, tier):
         for idx in range(lo, hi):
             M, bds = mspace.case_at(name, idx)
             check(mspace.polyhedron(M, bds), acc, {"kind": "M", "space": name, "idx": idx})
+            if idx % 4 == 0:
+                # the same matrix over a box with EQUAL HASH SUMS ((lo+1, hi-1) for every wide enough column) right afterwards: anything
+                # remembered under a key derived from hash(variable) is wrong for the twin
+                tw = [(lo_ + 1, hi_ - 1) if hi_ - lo_ >= 2 else (lo_, hi_) for (lo_, hi_) in bds]
+                if tw != list(bds):
+                    check(mspace.polyhedron(M, tw), acc, {"kind": "M", "space": name, "idx": idx, "twin": True})
     else:
         for k, m in enumerate(families.family(name)[lo:hi], start=lo):
             obj, _ = bind(m)
@@ -140,6 +146,9 @@ def replay(case, acc):
     from ..runner import tuplify
     if case["kind"] == "M":
         M, bds = mspace.case_at(case["space"], case["idx"])
+        if case.get("twin"):
+            check(mspace.polyhedron(M, bds), acc, dict(case, twin=False))
+            bds = [(lo_ + 1, hi_ - 1) if hi_ - lo_ >= 2 else (lo_, hi_) for (lo_, hi_) in bds]
         check(mspace.polyhedron(M, bds), acc, case)
     else:
         obj, _ = bind(tuplify(case["ast"]))
